@@ -1007,6 +1007,7 @@ class Explorer(BaseExplorer):
         self.model = model
         self.conds = []
         self.cache = {}
+        self.real_cache = {}   # simplified int term id -> (value it was realised to on this path, term)
         self.decisions = []
         self.decls = {}  # name -> z3 const
         self.observed = {}
@@ -1111,6 +1112,9 @@ class Explorer(BaseExplorer):
         e = z3.simplify(e)
         if z3.is_int_value(e):
             return e.as_long()
+        rk = e.get_id()
+        if rk in self.real_cache:   # the same term was realised earlier on this path: no new decision (and none to replay)
+            return self.real_cache[rk][0]
         while True:
             i = len(self.decisions)
             if i < len(self.prefix):
@@ -1120,24 +1124,29 @@ class Explorer(BaseExplorer):
             else:
                 self._need_model()
                 v = self.model.eval(e, model_completion=True).as_long()
-            if self.branch(e == v, note=v):
+            # force: a realisation always records its own decision (even when the equality happens to be implied by, or identical
+            # to, an earlier branch condition), so that the notes stay aligned with the decisions on prefix replay
+            if self.branch(e == v, note=v, force=True):
+                self.real_cache[rk] = (v, e)
                 return v
 
-    def branch(self, cond, note=None):
+    def branch(self, cond, note=None, force=False):
         if type(cond) is bool:
             return cond
         cond = z3.simplify(cond)
-        if z3.is_true(cond):
-            return True
-        if z3.is_false(cond):
-            return False
+        if not force:
+            if z3.is_true(cond):
+                return True
+            if z3.is_false(cond):
+                return False
         key = cond.get_id()
-        if key in self.cache:
-            return self.cache[key][0]
-        if z3.is_not(cond):
-            k2 = cond.arg(0).get_id()
-            if k2 in self.cache:
-                return not self.cache[k2][0]
+        if not force:
+            if key in self.cache:
+                return self.cache[key][0]
+            if z3.is_not(cond):
+                k2 = cond.arg(0).get_id()
+                if k2 in self.cache:
+                    return not self.cache[k2][0]
         i = len(self.decisions)
         if i < len(self.prefix):
             d = self.prefix[i]
